@@ -281,6 +281,22 @@ def precompute (nClusters g : Nat) (nameToRow : List (Nat × Nat))
     | .error e => .error e
     | .ok bufs => mergeBuffers nClusters g bufs
 
+/-- the writer run on a GIVEN assignment of chunks to workers (`loads`): one
+buffer per load, merged in list order.  `precompute` is this function applied
+to the assignment `workSplit` computes; the statistics do not depend on which
+assignment is used as long as it deals every chunk out exactly once
+(`CTM.C09.split_independent`). -/
+def precomputeLoads (nClusters g : Nat) (nameToRow : List (Nat × Nat))
+    (loads : List (List Chunk)) : Except StatsErr Buffer :=
+  match mapMExcept (processSpec nClusters g nameToRow) loads with
+  | .error e => .error e
+  | .ok bufs => mergeBuffers nClusters g bufs
+
+/-- all `(file, r0, r1)` chunks of the files that hold a wanted cell, in loop order -/
+def allChunks (nameToRow : List (Nat × Nat)) (files : List (Nat × List CellRec)) (rows : Nat) :
+    List Chunk :=
+  (files.filter (fun f => wanted nameToRow f.2)).flatMap (fun f => fileChunks rows f.1 f.2)
+
 /-- the census of `var` before any work: every file of `data_path_list` (wanted
 or not) must list the same gene names IN THE SAME ORDER as the first one —
 the arrays are accumulated column by column under the first file's
